@@ -173,6 +173,7 @@ def run_selftest(repo: Repo, propmod, base_ctx, jobs: int = None) -> dict:
                 out["caught"] += 1
             elif status == "skipped":
                 out["skipped"].append(name)
+                out["report"].append("SELFTEST mutant %s skipped: its edit site is not in the tree (%s)" % (name, info))
             elif status == "missed":
                 out["missed"].append(name)
                 out["report"].append("SELFTEST mutant %s MISSED: %s" % (name, info))
